@@ -83,13 +83,13 @@ class CaptureRegion:
                                  being presented.
         """
         read_start = current_position - len(chunk)
-        if (read_start <= self.offset <= current_position or
-                self.offset <= read_start <= (self.offset + self.length)):
-            if read_start < self.offset:
-                lead_gap = self.offset - read_start
-            else:
-                lead_gap = 0
-            self.data += chunk[lead_gap:]
+        # The next byte we need is the one right after what we have
+        # captured so far. Only take data from this chunk if it contains
+        # (or directly abuts) that position, so that we never splice in
+        # bytes that do not belong to this region.
+        wanted = self.offset + len(self.data)
+        if read_start <= wanted <= current_position:
+            self.data += chunk[wanted - read_start:]
             self.data = self.data[:self.length]
 
 
